@@ -5,6 +5,9 @@ Nothing here imports lena. A variable is described by a JSON-able *spec*:
     ["V", i, p]                    plain variable number i with attribute profile p
     ["Compose", [spec, ...], kw]   composition, kw = keyword arguments (name and extra attributes)
     ["Combine", [spec, ...], kw]   tuple variable, kw may hold name, type and extra attributes
+    ["N", i, p]                    plain variable number i with a numeric getter x -> a_i * x + b_i
+    ["Abs", spec, kw]              lena.variables.abs(variable of spec, **kw), kw holds latex_name and
+                                   may hold name
 
 The model is written from the docstrings of lena/variables/variable.py and the property statement:
 
@@ -17,7 +20,14 @@ The model is written from the docstrings of lena/variables/variable.py and the p
     context.variable that must CONTAIN (`Sub`: subset match, extra keys are tolerated): the name, the
     attributes and the type of the last variable; under every type of (chain of P) + (chains of the
     variables) the attributes recorded for it; and compose == that list of types (a chain of fewer
-    than two types may also have no compose key at all).
+    than two types may also have no compose key at all);
+  * from the docstring of lena.variables.functions.abs: abs(var, latex_name=l) is a variable whose data
+    is the absolute value of var's data, named "abs_" + var.name unless a name is given, with the given
+    latex_name; it is a variable "of the same kind" (type and other attributes of var), so inside a chain
+    it stands where var would stand, described by its own name and attributes;
+  * a value is a (data, context) pair exactly when it is a tuple (or an instance of a subclass of tuple)
+    of length 2 whose second item is a dictionary (or an instance of a subclass of dict) - the
+    convention of lena.flow.get_data_context; every other value is data without context.
 """
 import copy
 
@@ -32,7 +42,32 @@ PROFILES = (
     {"unit": "mm", "latex_name": "", "range": [0, 1], "zero": 0},
     {"opt": {"k": [1, {"z": None}]}, "flag": False},
     {"unit": "cm"},
+    {"unit": "m", "latex_name": "x_m", "range": [0, 1]},
 )
+
+# numeric getters x -> a * x + b of the "N" leaves: they do not commute and change the sign of 7
+AFFINE = ((-2, 3), (3, -40), (-1, -5), (2, -9), (5, 1))
+
+# kinds of data ("int" is the data of all the other groups)
+DATA_KINDS = ("int", "none", "zero", "empty-tuple", "pair-like", "dict")
+
+
+def data_value(kind):
+    """A fresh data value. "pair-like" is data that itself looks like a (data, context) pair, "dict" is
+    data that looks like a context."""
+    if kind == "int":
+        return DATA
+    if kind == "none":
+        return None
+    if kind == "zero":
+        return 0
+    if kind == "empty-tuple":
+        return ()
+    if kind == "pair-like":
+        return (DATA, {"inner": [1]})
+    if kind == "dict":
+        return {"variable": {"name": "d", "type": "td", "td": {"name": "d"}}, "k": [0]}
+    raise ValueError(kind)
 
 VALUE_FORMS = ("bare", "empty", "plain", "untyped-variable", "typed-variable", "composed-variable",
                "empty-variable",
@@ -163,14 +198,66 @@ def leaf_fields(spec):
     return NAMES[i], TYPES[i], copy.deepcopy(PROFILES[p])
 
 
+def children(spec):
+    kind = spec[0]
+    if kind in ("V", "N"):
+        return []
+    if kind == "Abs":
+        return [spec[1]]
+    return list(spec[1])
+
+
+def skeleton(spec):
+    """Shape of a spec without numbers and profiles: "Abs[latex_name](Compose(N,N))"."""
+    kind = spec[0]
+    if kind in ("V", "N"):
+        return kind
+    kw = spec[2] if len(spec) > 2 and spec[2] else {}
+    return "%s%s(%s)" % (kind, "[%s]" % ",".join(sorted(kw)) if kw else "",
+                         ",".join(skeleton(s) for s in children(spec)))
+
+
+def function_kinds(items):
+    """Sorted names of the functions of lena.variables.functions used anywhere in the items."""
+    out = set()
+
+    def walk(s):
+        if s[0] == "Abs":
+            out.add("abs")
+        for c in children(s):
+            walk(c)
+    for s in items:
+        walk(s)
+    return sorted(out)
+
+
+def _retyped(d, name, top):
+    """Description of a variable made from the variable described by d: it stands where that variable
+    stood (same type, same earlier chain) and is described by its own name and attributes."""
+    chain = list(d["chain"])
+    if d["type"]:
+        sub = dict(top)
+        sub["name"] = name
+        assert chain and chain[-1][0] == d["type"]
+        chain[-1] = (d["type"], Sub(sub))
+    return {"name": name, "type": d["type"], "top": top, "chain": chain}
+
+
 def describe(spec):
     """{"name", "type" (or None), "top": attributes required at top level, "chain": [(type, Sub)]}"""
     kind = spec[0]
-    if kind == "V":
+    if kind in ("V", "N"):
         name, typ, attrs = leaf_fields(spec)
         sub = dict(attrs)
         sub["name"] = name
         return {"name": name, "type": typ, "top": attrs, "chain": [(typ, Sub(sub))]}
+    if kind == "Abs":
+        d = describe(spec[1])
+        kw = spec[2] if len(spec) > 2 and spec[2] else {}
+        name = kw["name"] if "name" in kw else "abs_" + d["name"]
+        top = copy.deepcopy(d["top"])
+        top["latex_name"] = kw["latex_name"]       # always given in this alphabet
+        return _retyped(d, name, top)
     items = [describe(s) for s in spec[1]]
     kw = copy.deepcopy(spec[2]) if len(spec) > 2 and spec[2] else {}
     if kind == "Compose":
@@ -233,6 +320,12 @@ def getter(spec):
     if kind == "V":
         i = spec[1]
         return lambda x: (i, x)
+    if kind == "N":
+        a, b = AFFINE[spec[1]]
+        return lambda x: a * x + b
+    if kind == "Abs":
+        g0 = getter(spec[1])
+        return lambda x: abs(g0(x))
     gs = [getter(s) for s in spec[1]]
     if kind == "Compose":
         def g(x):
@@ -261,8 +354,6 @@ def role(key, types):
 
 def leaves(spec):
     """Leaf specs reachable through Compose only (a Combine is opaque: it cannot be flattened)."""
-    if spec[0] == "V":
-        return [spec]
     if spec[0] == "Compose":
         return [l for s in spec[1] for l in leaves(s)]
     return [spec]
@@ -276,9 +367,7 @@ def chain_types(spec):
 def has_kind(spec, kind):
     if spec[0] == kind:
         return True
-    if spec[0] == "V":
-        return False
-    return any(has_kind(s, kind) for s in spec[1])
+    return any(has_kind(s, kind) for s in children(spec))
 
 
 def partitions(seq, min_parts=1):
